@@ -307,6 +307,7 @@ def showNode : Node → String
   | .rdf n => "rdf:" ++ n
   | .rdfs n => "rdfs:" ++ n
   | .b k => "_:" ++ toString k
+  | .res n => "wf:" ++ n
 
 def showTriples (ts : List Triple) : String :=
   " ".intercalate (sortStrs (ts.map (fun t => "(" ++ showNode t.1 ++ " " ++ showNode t.2.1 ++ " " ++ showNode t.2.2 ++ ")")))
@@ -343,6 +344,31 @@ def stepGraph (st : DState) (e : Sexp) : Option (DState × String) :=
         match addExpr st.glang cfg (.b r) none g1 ex' none false with
         | .error ge => pure (st, "E:" ++ showGErr ge)
         | .ok (g, out) => pure (st, s!"ok root _:{r} out _:{out} " ++ showTriples g.allTriples)
+  | .list (.atom "gworkflow" :: .atom bits :: pt :: .list srcs :: apps) => do
+    let pt ← boolOf pt
+    let srcs ← srcs.mapM atomStr
+    let cfg := gcfgOfBits (bits.toList.map (· == 'T'))
+    let appNames ← apps.mapM (fun a => match a with
+      | .list (.atom out :: _) => some out
+      | _ => none)
+    let names := srcs ++ appNames
+    let idx (n : String) : Nat := (names.idxOf? n).getD 0
+    let wapps ← apps.mapM (fun a => match a with
+      | .list [.atom out, .list ins, txt] => do
+        let ins ← ins.mapM atomStr
+        let txt ← Sexp.str? txt
+        pure ({ out := idx out, toks := tokenize Generated.exprSpecials Generated.blanks txt, inputs := ins.map idx } : WfApp)
+      | _ => none)
+    let w : Wf := { sources := srcs.map idx, apps := wapps, names := names }
+    pure (st, match addWorkflow st.plang st.glang st.ops cfg pt w with
+      | .error (.noUniqueTarget) => "E:ValueError"
+      | .error (.composition e) => (match e with
+          | .application _ => "E:ApplicationError"      -- not a TypingError: `add_workflow` does not wrap it
+          | e => "E:WorkflowCompositionError:" ++ showPErr e)
+      | .error (.typing e) => "E:" ++ showErr e
+      | .error (.graph e) => "E:" ++ showGErr e
+      | .error (.internal s) => "E:Internal(" ++ s ++ ")"
+      | .ok (g, out, _) => s!"ok root wf:workflow out _:{out} " ++ showTriples g.allTriples)
   | _ => none
 
 def step (st : DState) (e : Sexp) : DState × String :=
